@@ -10,12 +10,22 @@ Definition ic (r : rr) : list byte := impl_canon (r_type r) (r_data r).
 Definition key_determines_output (set : list rr) : Prop :=
   forall a b, In a set -> In b set -> r_ttl a = r_ttl b -> tb a = tb b -> ic a = ic b.
 
-(* field lists with the same layout: names at the same positions, octet fields of the same
-   length except the last *)
+(* [n] character-strings (length octet + octets) one after the other *)
+Inductive cs_seq : nat -> list byte -> Prop :=
+| cs_nil : cs_seq O []
+| cs_cons : forall n s rest, cs_seq n rest -> cs_seq (S n) (len s :: s ++ rest).
+(* [k] fixed octets followed by [n] character-strings (e.g. NAPTR: 4 and 3) *)
+Definition framed (k n : nat) (a : list byte) : Prop :=
+  exists p q, a = p ++ q /\ length p = k /\ cs_seq n q.
+
+(* field lists with the same layout: names at the same positions; octet fields of the same
+   length, or self-delimiting with the same frame, except the last *)
 Inductive same_shape : list field -> list field -> Prop :=
 | ss_nil : same_shape [] []
 | ss_last : forall a b, same_shape [FB a] [FB b]
 | ss_fb : forall a b f1 f2, length a = length b -> same_shape f1 f2 -> same_shape (FB a :: f1) (FB b :: f2)
+| ss_framed : forall k n a b f1 f2, framed k n a -> framed k n b -> same_shape f1 f2 ->
+    same_shape (FB a :: f1) (FB b :: f2)
 | ss_fn : forall a b f1 f2, same_shape f1 f2 -> same_shape (FN a :: f1) (FN b :: f2).
 
 Fixpoint count_names (fs : list field) : nat :=
@@ -267,16 +277,37 @@ Proof.
     destruct (IH l2 r1 r2 H1' H2' Hrest') as [-> ->]. now split.
 Qed.
 
+Lemma cs_seq_inj n : forall a b x y, cs_seq n a -> cs_seq n b -> a ++ x = b ++ y -> a = b /\ x = y.
+Proof.
+  induction n as [|n IH]; intros a b x y Ha Hb H; inversion Ha; inversion Hb; subst.
+  - now split.
+  - cbn [app] in H. injection H as Hlen Hrest. rewrite <- !app_assoc in Hrest.
+    assert (Hl : length s = length s0) by (unfold len in Hlen; lia).
+    destruct (app_inj_length s s0 _ _ Hl Hrest) as [-> Hrest'].
+    destruct (IH _ _ _ _ H1 H4 Hrest') as [-> ->]. now split.
+Qed.
+
+Lemma framed_inj k n a b x y : framed k n a -> framed k n b -> a ++ x = b ++ y -> a = b /\ x = y.
+Proof.
+  intros (p1 & q1 & -> & Hp1 & Hq1) (p2 & q2 & -> & Hp2 & Hq2) H.
+  rewrite <- !app_assoc in H.
+  destruct (app_inj_length p1 p2 _ _ ltac:(congruence) H) as [-> H'].
+  destruct (cs_seq_inj n _ _ _ _ Hq1 Hq2 H') as [-> ->]. now split.
+Qed.
+
 Lemma raw_fields_inj f1 f2 :
   same_shape f1 f2 -> Forall wf_field f1 -> Forall wf_field f2 ->
   raw_fields f1 = raw_fields f2 -> f1 = f2.
 Proof.
-  induction 1 as [|a b|a b f1 f2 Hl _ IH|a b f1 f2 _ IH]; intros H1 H2 H.
+  induction 1 as [|a b|a b f1 f2 Hl _ IH|k n a b f1 f2 Ha Hb _ IH|a b f1 f2 _ IH]; intros H1 H2 H.
   - reflexivity.
   - unfold raw_fields in H. cbn in H. rewrite !app_nil_r in H. now subst.
   - inversion H1 as [|? ? _ H1']; subst. inversion H2 as [|? ? _ H2']; subst.
     unfold raw_fields in H. cbn [map concat raw_field] in H.
     destruct (app_inj_length a b _ _ Hl H) as [-> H']. f_equal. now apply IH.
+  - inversion H1 as [|? ? _ H1']; subst. inversion H2 as [|? ? _ H2']; subst.
+    unfold raw_fields in H. cbn [map concat raw_field] in H.
+    destruct (framed_inj k n a b _ _ Ha Hb H) as [-> H']. f_equal. now apply IH.
   - inversion H1 as [|? ? Ha H1']; subst. inversion H2 as [|? ? Hb H2']; subst.
     unfold raw_fields in H. cbn [map concat raw_field] in H.
     destruct (wire_name_inj a b _ _ (proj1 Ha) (proj1 Hb) H) as [-> H']. f_equal. now apply IH.
